@@ -42,8 +42,10 @@ CONSTANTS StackIds,  \* which stacking orders (indices into AllStacks)
           Deltas,    \* clock advances
           NViews,    \* views when the stack has a Versioned layer
           PokeTTLs,  \* TTLs of foreign (undecodable) backend writes; {} = none
-          MaxOps,    \* generation configs: behaviours of exactly this many operations are printed
-          DetOnly    \* generation configs: TRUE = drop steps whose outcome depends on Go map order
+          MaxOps,    \* CONSTRAINT Bounded: at most this many operations per behaviour
+          Full,      \* TRUE = also the operation variants that the model cannot tell apart (see Next)
+          DetOnly    \* TRUE = multi-key steps whose resulting state depends on Go map order are disabled
+                     \* (behaviour generation for deterministic replay; FALSE in the configs that decide C19)
 
 None    == "none"
 Corrupt == "corrupt"     \* bytes that are not a snappy block (written by a foreign client)
@@ -95,6 +97,7 @@ Inst(i, w) == IF i < VerPos THEN w ELSE 0      \* layers above the Versioned lay
 Slots     == (1..MaxL) \X (0..NViews)
 Max(a, b) == IF a > b THEN a ELSE b
 Dec(x, d) == Max(0, x - d)
+MaxOf(S)  == CHOOSE x \in S : \A y \in S : y <= x
 
 (* keys are pairs <<version, client key>>, version 0 = not (yet) prefixed *)
 CK(k)        == <<0, k>>
@@ -248,6 +251,7 @@ SetMulti(w, ks, vals, ttl) ==       \* ks: sequence of distinct keys (the map's 
   LET data == [x \in {CK(ks[j]) : j \in 1..Len(ks)} |-> CV(vals[CHOOSE j \in 1..Len(ks) : ks[j] = x[2]])]
       outs == MultiAt(1, Cur, w, data, ttl)
   IN \E st \in outs :
+       /\ DetOnly => Cardinality(outs) = 1
        /\ lru' = st.lru /\ bk' = st.bk
        /\ Stored(w, ks, vals, ttl)
        /\ Record(Op("setmulti", w, ks, vals, ttl, NoRep, Cardinality(outs) > 1, st.bk))
@@ -261,6 +265,7 @@ Add(w, k, v, ttl) ==
 Get(w, ks) ==
   LET outs == GetAt(1, Cur, w, [j \in 1..Len(ks) |-> CK(ks[j])]) IN
   \E o \in outs :
+    /\ DetOnly => Cardinality({x.st : x \in outs}) = 1
     /\ lru' = o.st.lru /\ bk' = o.st.bk
     /\ retLeft' = [x \in DOMAIN retLeft |-> IF x[1] = w /\ x[2] \in o.bf THEN Max(retLeft[x], conf.dttl) ELSE retLeft[x]]
     /\ UNCHANGED <<last, ownLeft, foreign>>
@@ -296,18 +301,30 @@ Poke(w, k, ttl) ==   \* a foreign client stores bytes that are not a snappy bloc
   /\ Record(Op("poke", w, <<k>>, <<>>, ttl, NoRep, FALSE, b2))
 
 KeySeqs == UNION {{<<k>> : k \in Keys}, {<<a, b>> : a, b \in Keys} \ {<<k, k>> : k \in Keys}}
+(* one sequence per set of >= 2 keys: the argument of SetMultiAsync is a map *)
+KeySets == {CHOOSE s \in KeySeqs : Range(s) = S : S \in {Range(t) : t \in {u \in KeySeqs : Len(u) > 1}}}
+
+(* Operations that differ for the model.  A single-key read is a Get; SetAsync and a one-key
+   SetMultiAsync have, by definition above, the effect of Set, so the configurations that decide the
+   properties leave them out (Full = FALSE); the generation configurations include them (Full = TRUE)
+   because the code paths differ. *)
+Core ==
+  \/ \E w \in Views, k \in Keys, v \in Values, ttl \in TTLs : Set("set", w, k, v, ttl)
+  \/ \E w \in Views, ks \in KeySets, ttl \in TTLs : \E vals \in [1..Len(ks) -> Values] : SetMulti(w, ks, vals, ttl)
+  \/ \E w \in Views, k \in Keys, v \in Values, ttl \in TTLs : Add(w, k, v, ttl)
+  \/ \E w \in Views, ks \in KeySeqs : Get(w, ks)
+  \/ \E w \in Views, k \in Keys : Delete(w, k)
+  \/ \E d \in Deltas : Advance(d)
+  \/ \E w \in Views, k \in Keys, ttl \in PokeTTLs : Poke(w, k, ttl)
+
+Variants ==
+  \/ \E w \in Views, k \in Keys, v \in Values, ttl \in TTLs : Set("setasync", w, k, v, ttl)
+  \/ \E w \in Views, k \in Keys, v \in Values, ttl \in TTLs : SetMulti(w, <<k>>, <<v>>, ttl)
 
 Next ==
   /\ UNCHANGED conf
-  /\ \/ \E w \in Views, k \in Keys, v \in Values, ttl \in TTLs : Set("set", w, k, v, ttl)
-     \/ \E w \in Views, k \in Keys, v \in Values, ttl \in TTLs : Set("setasync", w, k, v, ttl)
-     \/ \E w \in Views, ks \in KeySeqs, ttl \in TTLs : \E vals \in [1..Len(ks) -> Values] : SetMulti(w, ks, vals, ttl)
-     \/ \E w \in Views, k \in Keys, v \in Values, ttl \in TTLs : Add(w, k, v, ttl)
-     \/ \E w \in Views, ks \in KeySeqs : Get(w, ks)
-     \/ \E w \in Views, k \in Keys : Get(w, <<k>>)
-     \/ \E w \in Views, k \in Keys : Delete(w, k)
-     \/ \E d \in Deltas : Advance(d)
-     \/ \E w \in Views, k \in Keys, ttl \in PokeTTLs : Poke(w, k, ttl)
+  /\ \/ Core
+     \/ Full /\ Variants
 
 HasLru(s) == \E i \in 1..Len(AllStacks[s]) : AllStacks[s][i] = "lru"
 Confs == {c \in [stack : StackIds, cap : Caps, dttl : DTTLs] :
@@ -332,7 +349,8 @@ TypeOK ==
   /\ conf \in Confs
   /\ \A s \in Slots : /\ Len(lru[s]) <= conf.cap
                       /\ \A a, b \in 1..Len(lru[s]) : a # b => lru[s][a].key # lru[s][b].key
-                      /\ \A a \in 1..Len(lru[s]) : lru[s][a].left \in 0..Max(conf.dttl, 2)
+                      /\ \A a \in 1..Len(lru[s]) : lru[s][a].left >= 0
+                      /\ \A a \in 1..Len(lru[s]) : lru[s][a].left <= MaxOf(TTLs \cup {conf.dttl})
   /\ \A x \in DOMAIN bk : bk[x].left > 0
   /\ \A x \in DOMAIN last : last[x] \in Values \cup {None}
 
@@ -399,10 +417,25 @@ DeleteRemoves ==
 
 ----------------------------------------------------------------------------
 (* Behaviour generation (DESIGN.md 1.5): hist is outside the VIEW. *)
-Behaviour(h) == [stack |-> Kinds, cap |-> conf.cap, dttl |-> conf.dttl, steps |-> h]
+
+(* what a client finds when, after the behaviour, it reads every key of every view, one single-key
+   GetMulti after the other in a fixed order (each read may back-fill / evict and so affect the next) *)
+RECURSIVE SweepFrom(_, _)
+SweepFrom(st, todo) ==
+  IF todo = <<>> THEN <<>>
+  ELSE LET w == Head(todo)[1]
+           k == Head(todo)[2]
+           o == CHOOSE o \in GetAt(1, st, w, <<CK(k)>>) : TRUE
+       IN <<[w |-> w, k |-> k, v |-> IF CK(k) \in DOMAIN o.found THEN o.found[CK(k)].v ELSE None, err |-> o.err]>>
+          \o SweepFrom(o.st, Tail(todo))
+KeyOrder  == CHOOSE s \in [1..Cardinality(Keys) -> Keys] : \A i, j \in 1..Cardinality(Keys) : i < j => s[i] # s[j]
+SweepList == [n \in 1..(Cardinality(Views) * Cardinality(Keys)) |->
+                <<((n - 1) \div Cardinality(Keys)) + 1, KeyOrder[((n - 1) % Cardinality(Keys)) + 1]>>]
+
+Behaviour(h, st) == [stack |-> Kinds, cap |-> conf.cap, dttl |-> conf.dttl, steps |-> h, sweep |-> SweepFrom(st, SweepList)]
 
 Bounded   == Len(hist) <= MaxOps                                           \* CONSTRAINT
-DetStep   == DetOnly => ~op'.nd                                            \* ACTION_CONSTRAINT
-EmitFull  == Len(hist) # MaxOps \/ PrintT(ToJson(Behaviour(hist)))         \* INVARIANT, -simulate
-EmitStep  == PrintT(ToJson(Behaviour(hist')))                              \* ACTION_CONSTRAINT, exhaustive
+(* ACTION_CONSTRAINT of the exhaustive generation config: one behaviour per transition of the graph
+   (shortest path to the source state + the transition), each followed by the sweep of the target *)
+EmitStep  == PrintT(ToJson(Behaviour(hist', [lru |-> lru', bk |-> bk'])))
 =============================================================================
